@@ -433,7 +433,99 @@ def r19_7(chk):
     chk.floor("R19.7", 8, "9 atomic_write sites outside util/io.py on the pinned tree")
 
 
+def _explicit_closes(repo, mod, fn, probe_helpers=None):
+    """(call node, description) for every explicit .close() of the object bound by
+    `with atomic_write(...) as f` inside that block, directly or in a function that f is passed to"""
+    out = []
+    for w in walk_no_nested(fn):
+        if not isinstance(w, (ast.With, ast.AsyncWith)):
+            continue
+        for it in w.items:
+            if not (isinstance(it.context_expr, ast.Call) and call_name(it.context_expr) == "atomic_write" and isinstance(it.optional_vars, ast.Name)):
+                continue
+            f = it.optional_vars.id
+            for st in w.body:
+                for c in ast.walk(st):
+                    if not isinstance(c, ast.Call):
+                        continue
+                    if isinstance(c.func, ast.Attribute) and c.func.attr == "close" and norm(c.func.value) == f:
+                        out.append((c, f"`{norm(c)}` inside the with block"))
+                        continue
+                    # f handed to a helper that closes its parameter
+                    pos = [i for i, a in enumerate(c.args) if isinstance(a, ast.Name) and a.id == f]
+                    if not pos:
+                        continue
+                    cn = (call_name(c) or "").split(".")[-1]
+                    helper = (probe_helpers or {}).get(cn)
+                    if helper is None:
+                        for m2 in [mod] + [x for x in repo.all_modules() if x is not mod and f"def {cn}(" in x.source]:
+                            try:
+                                helper = m2.func(cn)
+                                break
+                            except Exception:
+                                continue
+                    if helper is None:
+                        continue
+                    ps = params_of(helper)
+                    for i in pos:
+                        if i < len(ps) and any(isinstance(x, ast.Call) and isinstance(x.func, ast.Attribute) and x.func.attr == "close" and norm(x.func.value) == ps[i] for x in walk_no_nested(helper)):
+                            out.append((c, f"`{norm(c)[:60]}` closes its argument `{ps[i]}`"))
+    return out
+
+
+def r19_8(chk):
+    chk.rule("R19.8", "a write is committed once: the object a writer gets from `with atomic_write(...) as f` is closed again by the context exit, and for a *.zip target that object is itself a committing writer (open_zip returns an atomic_write) -- so wherever a writer closes it explicitly (directly or in a helper it hands it to), atomic_write.close() must be idempotent (guarded by the completion state); otherwise the second close commits a temporary file that is already gone and the write of every zip target raises")
+    io = chk.repo.module(IO)
+    cl = io.func("atomic_write.close")
+    guarded = False
+    for st in walk_no_nested(cl):
+        if isinstance(st, ast.If) and any(a in norm(st.test) for a in ("self.succeeded", "self._file.closed", "self._closed")):
+            guarded = True
+    ex = io.func("atomic_write.__exit__")
+    for st in ex.body:
+        if isinstance(st, ast.If) and any(a in norm(st.test) for a in ("self.succeeded", "self._closed")) and any(isinstance(x, ast.Return) for x in st.body):
+            guarded = True
+    n = 0
+    for mod in chk.repo.all_modules():
+        if "atomic_write" not in mod.source or mod.rel.endswith("util/io.py"):
+            continue
+        for q, fn in mod.all_functions():
+            for c, what in _explicit_closes(chk.repo, mod, fn):
+                n += 1
+                chk.decide(guarded, "R19.8", key(mod, q, "explicit close of the atomic_write file object"), mod.loc(c), f"{what}; atomic_write.close() is guarded by the completion state", f"{what}, and the with statement closes it again: atomic_write.close() runs __exit__ unconditionally, so for a zip target (where the object is an atomic_write in in_zip mode) the archive is committed twice and the second commit raises FileNotFoundError -- aln.write('x.fasta.zip') always fails")
+    if n == 0:
+        chk.ok("R19.8", key(io, "atomic_write.close", "no explicit close in any writer"), io.loc(cl), "no writer closes the with-bound object explicitly", nontrivial=False)
+    # probe: the matcher must see a close performed by a helper
+    pm = ast.parse("def helper(out, data):\n    out.write(data)\n    out.close()\n\ndef W(path, data):\n    with atomic_write(path, mode='wt') as f:\n        helper(f, data)\n")
+    got = _explicit_closes(chk.repo, io, pm.body[1], probe_helpers={"helper": pm.body[0]})
+    if not got:
+        raise AnalysisError("R19.8 self-probe failed: a close inside a helper was not seen")
+
+
+def r19_9(chk):
+    chk.rule("R19.9", "the temporary directory exists from atomic_write.__init__ on, but __exit__ (the only cleanup) runs only once the with block has been ENTERED: when opening the temporary file raises (EMFILE, EACCES, ENOSPC, an unknown encoding, a read mode) the failure is handled by the caller and nothing would remove the directory -- so every exceptional path from the open of self._tmppath passes a removal of that directory")
+    m = chk.repo.module(IO)
+    ci = m.cls("atomic_write")
+    n = 0
+    for name, fn in ci.methods.items():
+        if name in ("__exit__",) or not isinstance(fn, ast.FunctionDef):
+            continue
+        g = build(fn)
+        opens = g.nodes_containing(lambda x: isinstance(x, ast.Call) and (call_name(x) or "").split(".")[-1] in ("open_", "open") and x.args and "_tmppath" in norm(x.args[0]))
+        if not opens:
+            continue
+        rms = g.nodes_containing(lambda x: isinstance(x, ast.Call) and (call_name(x) or "").endswith("rmtree") and x.args and "_tmppath" in norm(x.args[0]))
+        for o in opens:
+            n += 1
+            has_x = any(k_ == "x" for _, k_ in o.succ)
+            okx = bool(rms) and has_x and g.always_followed_by(o, rms, exceptional=True, from_kinds=("x",))[0]
+            chk.decide(okx, "R19.9", key(m, f"atomic_write.{name}", "temp dir removed when opening the temp file fails"), m.loc(o.ast), "every exceptional path from the open passes rmtree(self._tmppath.parent)", f"`{norm(o.ast)[:70]}` can raise before the with block is entered, __exit__ is then never called and the directory made by mkdtemp stays next to the destination (e.g. table.write(path, mode='r') or any OSError at open)")
+    chk.floor("R19.9", 1, "the open of the temporary file in _get_fileobj")
+
+
 def run(chk):
+    r19_9(chk)
+    r19_8(chk)
     r19_7(chk)
     r19_6(chk)
     r19_5b(chk)
